@@ -15,7 +15,9 @@ fn main() {
     mem::install_panic_hook();
     let _ = std::fs::create_dir_all(&cfg.out_dir);
     let t0 = std::time::Instant::now();
-    let oracle = checks::oracle_selfcheck(&cfg);
+    // under the interpreter the self-check of the reference oracles (tens of seconds there) is left to the
+    // native stage of the same check, which runs it on every invocation
+    let oracle = if cfg!(miri) { Ok(pcv_core::json::J::s("performed by the native stage")) } else { checks::oracle_selfcheck(&cfg) };
     let mut rep = match checks::dispatch(&cfg) {
         Some(r) => r,
         None => {
